@@ -48,3 +48,45 @@ contract(
         ])],
     },
 )
+
+
+# ---- what the receiver is assumed to have: only tree and blob ids of the walked trees, never a gitlink's target -----------
+# (_collect_filetree_revs fills the `remote_has` set from the trees of the common commits; a gitlink entry names a commit of
+#  ANOTHER history - possibly one stored in the same repository and wanted in the same transfer - and says nothing about
+#  what the receiver holds)
+contract(prop=["C05"], file="<abstract>", func="_collect_filetree_revs@rec", trusted=True,
+         params={"obj_store": "opaque", "tree_sha": "opaque", "kset": "set[opaque]"}, returns="None", raises={ANY: None}, modifies=["kset"],
+         note="the recursive call: same obligation on its own add sites (modular), may add anything it proves there")
+contract(
+    prop=["C05"], file=OS, func="_collect_filetree_revs",
+    params={"obj_store": "opaque", "tree_sha": "opaque", "kset": "set[opaque]"}, returns="None", raises={ANY: None}, modifies=["kset"],
+    loops={1: dict(invariant=["True"], types={"kset": "set[opaque]"})},
+    options={"callee_contracts": {"S_ISGITLINK": ("<abstract>", "S_ISGITLINK@abs"), "_collect_filetree_revs": ("<abstract>", "_collect_filetree_revs@rec")},
+             "asserts": [("only-non-gitlink-entries-enter-the-have-set", "kset.add(sha)", ["not upred('gitlink', mode)"])]},
+)
+
+
+# ---- the server accepts a want only for an id it advertised ------------------------------------------------------------------
+# _ProtocolGraphWalker.determine_wants: every id that ends up in the returned want list was checked against `values`, the set
+# of the advertised ref values (membership ghost on a set the function never mutates).  Protocol I/O is abstract.
+SV = "dulwich/server.py"
+class_spec(file="<abstract>", cls="WalkerAbs", fields={"advertise_refs": "bool", "stateless_rpc": "bool", "proto": "opaque", "handler": "opaque"})
+contract(prop=["C05"], file="<abstract>", func="ObjectID@id", trusted=True, params={"x": "opaque"}, returns="opaque", raises={}, ensures=["result is x"],
+         note="typing.NewType: the identity at run time")
+contract(prop=["C05"], file="<abstract>", func="WalkerAbs.read_proto_line@abs", trusted=True, params={"self": "obj:WalkerAbs", "allowed": "opaque"}, returns="tuple[opaque,opaque]", raises={ANY: None})
+contract(prop=["C05"], file="<abstract>", func="_split_proto_line@abs", trusted=True, params={"line": "opaque", "allowed": "opaque"}, returns="tuple[opaque,opaque]", raises={ANY: None})
+for _m, _ps in (("get_symrefs", []), ("get_peeled", ["ref"]), ("set_ack_type", ["t"]), ("set_wants", ["wants"]), ("unread_proto_line", ["command", "value"]), ("_handle_shallow_request", ["wants"])):
+    contract(prop=["C05"], file="<abstract>", func=f"WalkerAbs.{_m}@abs", trusted=True, params=dict({"self": "obj:WalkerAbs"}, **{p_: "opaque" for p_ in _ps}), returns="opaque", raises={ANY: None},
+             note="protocol / bookkeeping: abstract; receives the want list but cannot change which ids were accepted")
+contract(
+    prop=["C05"], file=SV, func="_ProtocolGraphWalker.determine_wants",
+    params={"self": "obj:WalkerAbs", "heads": "opaque", "depth": "opaque"}, returns="list[opaque]", raises={ANY: None},
+    modifies=["self.advertise_refs", "self.stateless_rpc", "self.proto", "self.handler"],      # (no frame claim: bookkeeping methods are abstract)
+    loops={1: dict(invariant=["True"]),
+           2: dict(invariant=["all(member(values, want_revs[r]) for r in range(0, len(want_revs)))"], types={"want_revs": "list[opaque]"})},
+    ensures=["all(member(values, result[r]) for r in range(0, len(result)))"],
+    options={"immutable_sets": ["values"], "default_param": "opaque",
+             "callee_contracts": dict({"ObjectID": ("<abstract>", "ObjectID@id"), "_split_proto_line": ("<abstract>", "_split_proto_line@abs"),
+                                       "WalkerAbs.read_proto_line": ("<abstract>", "WalkerAbs.read_proto_line@abs")},
+                                      **{f"WalkerAbs.{m_}": ("<abstract>", f"WalkerAbs.{m_}@abs") for m_ in ("get_symrefs", "get_peeled", "set_ack_type", "set_wants", "unread_proto_line", "_handle_shallow_request")})},
+)
